@@ -145,7 +145,7 @@ def gen_session(rng: random.Random, noise_p: float = 0.35, max_addrs: int = 3, l
         for j in range(n):
             msgs = []
             for _ in range(rng.randint(1, 3)):
-                msgs.append(pick(rng, [["SwitchStateResponse", {"key": 1, "state": True}], ["SensorStateResponse", {"key": 2, "state": 1.5}], ["PingRequest", {}], ["GetTimeRequest", {}], ["PingResponse", {}]]))
+                msgs.append(pick(rng, [["SwitchStateResponse", {"key": 1, "state": True}], ["SensorStateResponse", {"key": 2, "state": 1.5}], ["PingRequest", {}], ["GetTimeRequest", {}], ["PingResponse", {}], ["DisconnectResponse", {}]]))  # (the last one unsolicited: nobody asked)
             events.append({"at": {"on": "state", "match": {"new": "CONNECTED"}, "delay": pick(rng, [0.0005, 0.002, 0.2, 1.0]) * (j + 1)}, "do": "dev", "act": {"msgs": msgs}})
     if rng.random() < 0.25:
         device["reply_delay"] = pick(rng, [0.001, 0.05, 0.4])
@@ -162,13 +162,13 @@ def gen_session(rng: random.Random, noise_p: float = 0.35, max_addrs: int = 3, l
     return scn
 
 
-def make_rejecting(scn: dict, rng: random.Random) -> str:
+def make_rejecting(scn: dict, rng: random.Random, kind: str | None = None) -> str:
     """Turn a baseline into one whose connect attempt is refused by a verdict (name, version, password, key, framing):
     the library closes on its own, and an injected cause may fall into the very turn in which it does."""
     client, device = scn["client"], scn["device"]
     noise = "noise_psk" in client
     kinds = ["name", "name", "major", "password", "framing"] + (["key", "name"] if noise else [])
-    kind = pick(rng, kinds)
+    kind = kind or pick(rng, kinds)
     if kind == "name":
         client["expected_name"] = pick(rng, ["other", "simdev2", "Simdev"])
     elif kind == "major":
